@@ -11,8 +11,10 @@ from . import c05
 from .c04 import ScriptedChoice
 
 ID = "C19"
-LEAN_MODULE = "CKT.Props.C19PTM"
+LEAN_MODULE = "CKT.Props.C19Gen"
 THEOREMS = [
+    # the reset optimisations of the model are the translated source (harness/translate/resets.py -> Generated/ResetScans.lean)
+    "CKT.C12Gen.passes_translated", "CKT.C19Gen.optimizeResets_translated",
     "CKT.C19.optimizeResets_wire", "CKT.C19.optimizeResets_shape", "CKT.C19.optimizeResets_only",
     # T19.1 (Props/C19Moves): wire level, splice level, model level with decidable hypotheses, Move basis, both clauses together
     "CKT.C19.shape_clean", "CKT.C19.reset_free_of_shape", "CKT.C19.cond_shape", "CKT.C19.good_of_admissible", "CKT.C19.spliced_shape",
@@ -172,6 +174,13 @@ def _third_operand_cases():
         yield ("workflow", {"kind": "reuse_chain", "nq": nq, "qregs": [nq], "instrs": instrs, "cut_ids": cut_ids,
                             "obs": [{"l": l, "p": 0} for l in obs], "auto": auto, "N": n_, "seed": 192000 + k, "single": single,
                             "always_oracle": True})
+
+
+def regenerate():
+    """the three reset optimisations, translated from cutting_experiments.py on every run"""
+    from ..translate import resets
+    from ..core import REPO, LEAN
+    resets.regenerate(REPO, LEAN)
 
 
 def cases(rng, tier):
